@@ -240,13 +240,15 @@ def rebin_case(draw, tier):
      examples=(300, 1200))
 def rebin(case, ctx):
     f, img = case["factor"], case["img"]
+    f_arg = gen.typed_int(f, img.shape[-1] + 3 * img.shape[-2] + f)
+    ctx.tag("factor_type:" + type(f_arg).__name__)
     if case["ints"]:
         img = np.round(img).astype(int)
     img = gen.relayout(img, case.get("layout"))
     ctx.tag(f"factor:{f}", "cube" if img.ndim == 3 else "2d", "int" if case["ints"] else "float", "layout:" + str(case.get("layout")))
     ctx.nontrivial_if(f >= 2)
     with lentil_call("C20.rebin", "rebin"):
-        out = lentil.rebin(img, f)
+        out = lentil.rebin(img, f_arg)
     planes = img[None] if img.ndim == 2 else img
     exp = np.zeros((planes.shape[0], planes.shape[1] // f, planes.shape[2] // f), dtype=img.dtype)
     for d in range(planes.shape[0]):
